@@ -333,7 +333,51 @@ def simplify(n):
     if out.get("k") == "block" and not out.get("stmts") and isinstance(out.get("expr"), dict) \
             and out["expr"].get("k") == "fmt":
         return out["expr"]
+    if out.get("k") == "match":
+        c = _cmp_match(out)
+        if c is not None:
+            return c
     return out
+
+
+_ORD = {"Greater": ">", "Less": "<", "Equal": "=="}
+
+
+def _cmp_match(n):
+    """`match a.cmp(&b) { Greater => x, Less => y, Equal => z }` is `if a > b {x} else if a < b {y} else {z}`
+    (arms in their order; the last arm becomes the final else)"""
+    e = n.get("e")
+    if not (isinstance(e, dict) and e.get("k") == "mcall" and e.get("m") == "cmp" and len(e.get("args") or []) == 1):
+        return None
+    arms = n.get("arms") or []
+    if len(arms) not in (2, 3) or any(a.get("guard") is not None for a in arms):
+        return None
+    ops = []
+    for i, a in enumerate(arms):
+        p = a.get("pat") or {}
+        nm = (p.get("path") or "").rsplit("::", 1)[-1]
+        if p.get("k") in ("ppath", "pts", "pstruct") and "cmp::Ordering" in (p.get("path") or "") and nm in _ORD:
+            ops.append(_ORD[nm])
+        elif p.get("k") == "_" and i == len(arms) - 1:
+            ops.append(None)
+        else:
+            return None
+    if len(set(ops)) != len(ops) or (len(arms) == 2 and ops[-1] is not None):
+        return None
+    r = e["args"][0]
+    while isinstance(r, dict) and r.get("k") == "ref":
+        r = r["e"]
+
+    def blk(b):
+        return b if isinstance(b, dict) and b.get("k") == "block" else {"k": "block", "stmts": [], "expr": b,
+                                                                         "ln": (b or {}).get("ln") if isinstance(b, dict) else None}
+    res = blk(arms[-1]["body"])
+    for a, op in reversed(list(zip(arms[:-1], ops[:-1]))):
+        cond = {"k": "bin", "op": op, "l": e["recv"], "r": r, "ln": e.get("ln"), "t": "bool"}
+        res = {"k": "if", "cond": cond, "then": blk(a["body"]), "else": res, "ln": n.get("ln"), "t": n.get("t")}
+        if n.get("rt") is not None:
+            res["rt"] = n["rt"]
+    return res
 
 
 def fmt_text(n):
